@@ -74,16 +74,17 @@ def dispatchOf (F : TFacts) (defaults : List String) (other : List String) (ty :
     | some i => .other i
     | none => if defaults.contains ty then .default ty else .unmatched
 
-/-- `PostInbox`: `fedCb` is the table of default federating callbacks (FedCallbacks.lean) -/
-def postInbox (F : TFacts) (fedCb : CbConfig → Iri → String → J → Prog Unit) (inbox : Iri) (a : J) : Prog Unit := do
+/-- `PostInbox`: `fedCb` is the table of default federating callbacks (FedCallbacks.lean); returns the
+activity as the side effects leave it -/
+def postInbox (F : TFacts) (fedCb : CbConfig → Iri → String → J → Prog J) (inbox : Iri) (a : J) : Prog J := do
   let isNew ← addToInboxIfNew inbox a
-  if !isNew then pure () else
-  let cfg ← Op.fedCallbacks
-  match dispatchOf F fedDefaults cfg.other (typeName a) with
-  | .badCallbacks => Prog.fail .lib
-  | .other i => Op.otherCb true i a
-  | .default ty => fedCb cfg inbox ty a
-  | .unmatched => Op.fedDefault a
+  if !isNew then pure a else do
+    let cfg ← Op.fedCallbacks
+    match dispatchOf F fedDefaults cfg.other (typeName a) with
+    | .badCallbacks => Prog.fail .lib
+    | .other i => do Op.otherCb true i a; pure a
+    | .default ty => fedCb cfg inbox ty a
+    | .unmatched => do Op.fedDefault a; pure a
 
 /-- `deliverToRecipients` -/
 def deliverToRecipients (box : Iri) (a : J) (recipients : List Iri) : Prog Unit := do
